@@ -134,6 +134,8 @@ impl MoveGen {
         for x in 0..self.moves.len() {
             self.moves[x].bitboard &= !mask;
         }
+        // an entry may have become empty: restore the partition the iterator relies on
+        self.set_iterator_mask(self.iterator_mask);
     }
 
     /// Never, ever, iterate this move
@@ -146,6 +148,8 @@ impl MoveGen {
                 found = true;
             }
         }
+        // an entry may have become empty: restore the partition the iterator relies on
+        self.set_iterator_mask(self.iterator_mask);
         found
     }
 
